@@ -9,6 +9,14 @@ Tie: `persim.sliced_wasserstein.sliced_wasserstein` vs the same model executed a
      triangle, `<= 2*W1`; integer and float32 arrays of the same numbers.  The translation / diagonal-point tolerances are
      float64 rounding of the coordinates involved (1e-14 * sum|coordinates|, observed 1.3e-16), not a fraction of the
      coordinate scale: the float32 directions of the pre-fix code moved the value by 1.5e-8 of the coordinate scale.
+     'All M >= 1': every M from 1 to 300 once against the definition (`msweep`), random M up to 300 elsewhere; a class of
+     30-100-point diagrams (thorough to 250) with all laws.
+Direction sampling: the definition is evaluated with the code's documented directions (1/2 + i/M)*pi.  The statement says only
+     "the M sampled directions of the half circle"; a value that differs from that average is still accepted for the VERDICT if
+     it lies within what M EQUALLY SPACED directions can give for some offset (`spec_band`: the average as a function of the
+     offset is sampled at 64..4096 offsets and widened by its Lipschitz bound, so no equally spaced sampling — e.g. midpoints —
+     is ever rejected) and is then reported as a correspondence break without a failing input.  Samplings that are not equally
+     spaced are not accepted.
 """
 import itertools
 import math
@@ -24,7 +32,8 @@ RULE = ("pairs/triples of diagrams from one PRNG: sizes 0-8 (thorough 0-20), coo
         "uniform modes (scales 2^-20..2^20), duplicates, diagonal points, then with prob 1/2 shifted along the diagonal or "
         "reflected so that coordinates of either sign occur; kinds random / reordered-equal / nearly-equal / one or both empty; "
         "with prob 0.15 moved far from the origin (offset +-10^U(2,6) x the largest coordinate, features unchanged); "
-        "M in {1,2,3,10,50} (thorough also random M<=64); non-trivial = both diagrams non-empty and not reorderings of each "
+        "M in {1,2,3,10,50} and random M<=300; every M in 1..300 once on diagrams of <= 4 points (thorough 1..600); a class of "
+        "30-100-point diagrams (thorough to 250); non-trivial = both diagrams non-empty and not reorderings of each "
         "other; distinct by digest of (PD1, PD2, M); laws: translations by +-10^U(0,6) x the coordinate span and diagonal "
         "points that far out; a representation stream with int8/uint8/int32/int64/float32 arrays")
 ASSUMPTIONS = [
@@ -34,6 +43,10 @@ ASSUMPTIONS = [
     "every list of directions",
     "np.dot/sorted/scipy cityblock agree with the model's Float arithmetic to 1e-12 relative to the coordinate scale (compared on "
     "every case; observed 2e-16)",
+    "the definition's directions are the code's documented (1/2 + i/M)*pi; for the verdict any value M equally spaced directions of the "
+    "half circle can give (any offset; sampled offsets widened by the Lipschitz bound sum|augmented point - centroid|*pi/(2MK)) is "
+    "accepted and reported as a correspondence break only; for more than 6 augmented points the 1-D transport cost of the "
+    "definition is the sorted L1 cost (theorem sorted_l1_is_ot)",
     "theorems are exact-arithmetic with the exact diagonal projection (c*c = 1/2); the code's float64 diag_theta makes the "
     "projection inexact by one rounding (1e-16 relative), inside the [T] tolerances (1e-14 of the sum of the coordinates involved)",
 ]
@@ -91,19 +104,90 @@ def ot1d(u, v):
     return math.fsum(abs(a - b) for a, b in zip(sorted(u), sorted(v)))
 
 
-def spec_sw(A, B, M):
-    """the definition, written independently of code and model: average over theta_i = (1/2 + i/M)*pi, i < M, of the
-    1-D transport cost between each diagram augmented with the (exact) diagonal projections of the other"""
+def aug(A, B):
+    """each diagram augmented with the (exact) diagonal projections of the other"""
     dA = [((b + d) / 2.0,) * 2 for b, d in A]
     dB = [((b + d) / 2.0,) * 2 for b, d in B]
+    return [tuple(p) for p in A] + dB, [tuple(p) for p in B] + dA
+
+
+def avg_cost(U, V, M, phi):
+    """average over the M equally spaced directions phi + i*pi/M, i < M, of the 1-D transport cost between the projections"""
+    tot = []
+    for i in range(M):
+        th = phi + i * math.pi / M
+        c, s = math.cos(th), math.sin(th)
+        tot.append(ot1d([c * x + s * y for x, y in U], [c * x + s * y for x, y in V]))
+    return math.fsum(tot) / M
+
+
+def spec_sw(A, B, M):
+    """the definition with the code's DOCUMENTED sampling, written independently of code and model: average over
+    theta_i = (1/2 + i/M)*pi, i < M, of the 1-D transport cost between each diagram augmented with the (exact) diagonal
+    projections of the other"""
+    U, V = aug(A, B)
     tot = []
     for i in range(M):
         th = (0.5 + i / M) * math.pi
         c, s = math.cos(th), math.sin(th)
-        u = [c * x + s * y for x, y in list(A) + dB]
-        v = [c * x + s * y for x, y in list(B) + dA]
-        tot.append(ot1d(u, v))
+        tot.append(ot1d([c * x + s * y for x, y in U], [c * x + s * y for x, y in V]))
     return math.fsum(tot) / M
+
+
+BAND = {"computed": 0, "cap": 300}
+
+
+def spec_band(A, B, M, value):
+    """Which values can 'the average over M equally spaced directions of the half circle' take?  Every such sampling is
+    {phi + i*pi/M} for an offset phi in [0, pi/M) (the slice cost is pi-periodic), and f(phi) = that average is L-Lipschitz
+    with L = sum of the distances of all augmented points to their common centroid (each summand |<l_theta, u - v>| of a
+    bijection has derivative at most |u - v| <= |u - m| + |v - m|; a minimum over bijections of L-Lipschitz functions is
+    L-Lipschitz).  f is sampled at K offsets; every legitimate value lies in [min - L*pi/(2MK), max + L*pi/(2MK)].  While
+    `value` is in the gray zone (outside the sampled range, inside the margin) K is quadrupled up to 4096.
+    -> (inside the sampled range or the final gray zone, lo, hi, margin, K)"""
+    U, V = aug(A, B)
+    pts = U + V
+    if not pts:
+        return abs(value) <= 1e-300, 0.0, 0.0, 0.0, 0
+    mx, my = math.fsum(p[0] for p in pts) / len(pts), math.fsum(p[1] for p in pts) / len(pts)
+    L = math.fsum(math.hypot(p[0] - mx, p[1] - my) for p in pts)
+    K, vals = 64, {}
+    while True:
+        for k in range(K):
+            key = (k * 4096) // K
+            if key not in vals:
+                vals[key] = avg_cost(U, V, M, (math.pi / M) * k / K)
+        lo, hi = min(vals.values()), max(vals.values())
+        margin = L * math.pi / (2 * M * K)
+        rnd = RND * scale_of(A, B)
+        if lo - rnd <= value <= hi + rnd:
+            return True, lo, hi, margin, K
+        if not (lo - margin - rnd <= value <= hi + margin + rnd):
+            return False, lo, hi, margin, K
+        if K >= 4096 or K * M > 200000:
+            return True, lo, hi, margin, K          # cannot be told apart from a legitimate sampling: accepted (sound direction)
+        K *= 4
+
+
+def spec_verdict(code, A, B, M):
+    """(holds, correspondence_only, info): `code` against the definition.  Equal (to float64 rounding of the coordinates) to the
+    average over the documented directions (1/2 + i/M)*pi: holds.  Otherwise it still holds — as far as the STATEMENT goes,
+    which says only 'the M sampled directions of the half circle' — if it lies within what equally spaced samplings can give
+    (`spec_band`); that is reported as a correspondence break, not as a failing input."""
+    spec = spec_sw(A, B, M)
+    tol = RND * scale_of(A, B) + 1e-300
+    info = {"code": code, "definition (directions (1/2+i/M)pi)": spec, "tol": tol}
+    if isinstance(code, str) or not math.isfinite(code):
+        return False, False, info
+    if abs(code - spec) <= tol:
+        return True, False, info
+    if BAND["computed"] >= BAND["cap"] or M * (len(A) + len(B) + 1) > 60000:
+        info["equally spaced samplings"] = "not evaluated (budget)"
+        return True, True, info
+    BAND["computed"] += 1
+    inside, lo, hi, margin, K = spec_band(A, B, M, code)
+    info["equally spaced samplings (any offset)"] = {"min": lo, "max": hi, "lipschitz margin": margin, "offsets sampled": K}
+    return inside, inside, info
 
 
 def scale_of(*dgms):
@@ -219,10 +303,10 @@ def eval_case(c):
     k = c["kind"]
     A, B, M = c["A"], c["B"], c["M"]
     if k == "spec":
-        code, spec = code_sw(A, B, M), spec_sw(A, B, M)
-        tol = RND * scale_of(A, B) + 1e-300
-        ok = not isinstance(code, str) and math.isfinite(code) and abs(code - spec) <= tol
-        return ok, {"code": code, "definition": spec, "tol": tol}
+        ok, corr, info = spec_verdict(code_sw(A, B, M), A, B, M)
+        if corr:
+            info["correspondence_only"] = "not the documented direction grid, but within what M equally spaced directions can give"
+        return ok, info
     v = code_sw(A, B, M)
     if isinstance(v, str) or not math.isfinite(v):
         return False, {"code": v}
@@ -274,10 +358,15 @@ def eval_case(c):
         for name, (x, y), (X, Y) in (("sw(A,B)", (a, b), (A, B)), ("sw(B,C)", (b, cc), (B, C)), ("sw(A,C)", (a, cc), (A, C))):
             with np.errstate(all="ignore"):
                 st, val, _ = call(S().sliced_wasserstein, x, y, M)
-            spec = spec_sw(X, Y, M)
-            tol = RND * scale_of(X, Y) + 1e-300
-            info[name] = {"code": val if st == "err" else float(val), "definition": spec, "tol": tol}
-            ok = ok and st != "err" and math.isfinite(float(val)) and abs(float(val) - spec) <= tol
+            try:
+                val = val if st == "err" else float(val)
+            except (TypeError, ValueError):
+                st, val = "err", "not-a-number"
+            okx, corr, inf = spec_verdict(("err:" + str(val)) if st == "err" else val, X, Y, M)
+            info[name] = inf
+            if corr:
+                info["correspondence_only"] = "not the documented direction grid, but within what M equally spaced directions can give"
+            ok = ok and okx
         return ok, info
     if k == "representation":
         w = code_sw(A, B, M, dtype=c["dtype"])
@@ -317,6 +406,30 @@ def fail(ctx, what, case, info, **more):
     ctx.violation("%s: %s" % (what, info), case, found_input=True, **more)
 
 
+def n_found(ctx):
+    """violations that carry a failing input; correspondence-only reports do not stop the search"""
+    return sum(1 for _, f in ctx.violations if f)
+
+
+_CORR = {}
+
+
+def corr_limited(ctx, key, what, case, limit=1):
+    """correspondence-only report (`no-failing-input-found`), at most `limit` per kind; further ones are counted"""
+    _CORR[key] = _CORR.get(key, 0) + 1
+    ctx.count("correspondence_only:" + key)
+    if _CORR[key] <= limit:
+        ctx.violation(what, case, found_input=False, correspondence=key)
+
+
+def note_sampling(ctx, lc, info):
+    """a value that is not the documented (1/2+i/M)pi average but lies within what equally spaced samplings can give"""
+    if isinstance(info, dict) and info.get("correspondence_only"):
+        corr_limited(ctx, "direction_sampling", "sliced_wasserstein is not the average over the documented directions (1/2+i/M)*pi, but within "
+                     "the values M equally spaced directions of the half circle can give (the statement fixes no offset) — "
+                     "correspondence only: %s" % (info,), dict(lc, correspondence="direction_sampling"))
+
+
 def search_failing_input(ctx, A, B, M, op, line, code, model):
     """correspondence broke on (A,B,M): is the *property* violated on the real code?  definition first, then every law"""
     spec_case = {"kind": "spec", "A": A, "B": B, "M": M}
@@ -332,14 +445,15 @@ def search_failing_input(ctx, A, B, M, op, line, code, model):
         if not ok:
             fail(ctx, "sliced Wasserstein law `%s` fails on the real code" % lc["kind"], lc, info, correspondence=op, model=model)
             return True
+        note_sampling(ctx, lc, info)
     ok, info = eval_case(spec_case)
     if not ok:
-        fail(ctx, "sliced_wasserstein differs from the definition (average over the M directions of the 1-D transport cost)",
-             spec_case, info, correspondence=op, model=model)
+        fail(ctx, "sliced_wasserstein differs from the definition (average over M equally spaced directions of the half circle of the "
+             "1-D transport cost)", spec_case, info, correspondence=op, model=model)
         return True
-    ctx.violation("code and model of sliced_wasserstein differ but the definition and all laws hold on this input: code=%r model=%r"
-                  % (code, model), {"correspondence": op, "line": line[:2000], "code": code, "model": model,
-                                    "A": A, "B": B, "M": M}, found_input=False)
+    note_sampling(ctx, spec_case, info)
+    corr_limited(ctx, op, "code and model of sliced_wasserstein differ but the definition and all laws hold on this input: code=%r model=%r"
+                 % (code, model), {"correspondence": op, "line": line[:2000], "code": code, "model": model, "A": A, "B": B, "M": M}, limit=3)
     return False
 
 
@@ -371,7 +485,7 @@ def run(ctx):
             kind = "corpus"
         else:
             A, B, kind = gen_pair(ctx, nmax)
-            M = r.choice(MS) if (not ctx.thorough or r.random() < 0.7) else r.randint(1, 64)
+            M = r.choice(MS) if r.random() < (0.7 if ctx.thorough else 0.9) else r.randint(1, 300)
         if M not in dcache:
             dcache[M] = enc(dirs64(M))
         cases.append((A, B, M, kind))
@@ -409,15 +523,21 @@ def run(ctx):
                               {"correspondence": "sw", "line": line, "code": code, "model": ans}, found_input=False)
             else:
                 search_failing_input(ctx, A, B, M, "sw", line, code, ans if isinstance(ans, str) else float(ans))
-            if len(ctx.violations) > 5:
+            if n_found(ctx) > 5:
                 return
     ctx.extra["max_code_model_discrepancy_rel_scale"] = worst
     ctx.extra["branch_hits"] = cov.summary()
     ctx.extra["core_theorems"] = CORE_THEOREMS
     representations(ctx)
-    if len(ctx.violations) > 5:
+    if n_found(ctx) > 5:
+        return
+    msweep(ctx)
+    if n_found(ctx) > 5:
         return
     laws(ctx, nmax)
+    if n_found(ctx) > 5:
+        return
+    large(ctx)
 
 
 def representations(ctx):
@@ -443,8 +563,39 @@ def representations(ctx):
         ctx.test("representation", ok)
         if not ok:
             fail(ctx, "sliced_wasserstein depends on the dtype (%s) the same numbers are stored in" % dtype, c, info, law=True)
-            if len(ctx.violations) > 5:
+            if n_found(ctx) > 5:
                 return
+
+
+def msweep(ctx):
+    """[T] 'all M >= 1': EVERY M from 1 to 300 once (thorough: to 600), on a pair of small diagrams (at most 4 points in all, so
+    the 1-D transport cost is the exhaustive minimum over bijections), against the definition.  A direction grid that has one
+    direction too many or too few for particular M (rounding of the step 1/M) shows here whatever those M are."""
+    r = ctx.rng
+    for M in range(1, (600 if ctx.thorough else 300) + 1):
+        na = r.randint(0, 3)
+        A = gen_dgm_n(ctx, na)
+        B = gen_dgm_n(ctx, r.randint(0 if na else 1, min(3, 4 - na)))
+        if r.random() < 0.5:
+            (A, B), _ = resign(ctx, [A, B])
+        lc = {"kind": "spec", "A": A, "B": B, "M": M}
+        ok, info = eval_case(lc)
+        ctx.case({"op": "msweep", "PD1": A, "PD2": B, "M": M}, bool(A) and bool(B), sample_every=97)
+        ctx.test("definition_every_M", ok)
+        if not ok:
+            fail(ctx, "sliced_wasserstein differs from the definition (average over M equally spaced directions) for M = %d" % M, lc, info, law=True)
+            if n_found(ctx) > 5:
+                return
+        else:
+            note_sampling(ctx, lc, info)
+    ctx.count("M_sweep_upto", 600 if ctx.thorough else 300)
+
+
+def gen_dgm_n(ctx, n):
+    """a diagram of exactly n points (coordinates as in `gen_dgm`)"""
+    g = ctx.gen
+    mode = g.mode()
+    return [g.bar(mode, allow_diag=True) for _ in range(n)]
 
 
 def laws(ctx, nmax):
@@ -455,23 +606,66 @@ def laws(ctx, nmax):
         C = gen_dgm(ctx, min(nmax, 12))
         if r.random() < 0.5:
             (A, B, C), _ = resign(ctx, [A, B, C])
-        M = r.choice(MS) if r.random() < 0.8 else r.randint(1, 64)
+        M = r.choice(MS) if r.random() < 0.8 else r.randint(1, 300 if r.random() < 0.3 else 64)
         todo = laws_for(ctx, A, B, C, M)
-        if i % 3 == 0 and len(A) + len(B) <= 10:
+        if M > 64:
+            todo = [lc for lc in todo if lc["kind"] != "shared"]             # cost: three definitions at large M
+        if i % 3 == 0 and len(A) + len(B) <= 10 and (M <= 64 or len(A) + len(B) <= 3):
             todo.append({"kind": "spec", "A": A, "B": B, "M": M})
         for lc in todo:
             ok, info = eval_case(lc)
             ctx.test(lc["kind"] if lc["kind"] != "spec" else "definition", ok)
             if not ok:
                 fail(ctx, "sliced Wasserstein law `%s` fails on the real code" % lc["kind"], lc, info, law=True)
-                if len(ctx.violations) > 5:
+                if n_found(ctx) > 5:
                     return
+            else:
+                note_sampling(ctx, lc, info)
     ctx.extra["w1_reference"] = dict(STATS)
+
+
+def large(ctx):
+    """[T] diagrams of 30-100 points (thorough to 250): vectorised / blocked rewrites of the projection and sorting behave
+    differently only beyond small sizes.  The definition's 1-D transport cost is the sorted L1 cost there (a theorem:
+    sorted_l1_is_ot); all laws except the shared-object history"""
+    r, g = ctx.rng, ctx.gen
+    hi = 250 if ctx.thorough else 100
+    for i in range(ctx.n(12, 80)):
+        kind = ["random", "perm", "near", "far"][i % 4]
+        mode = g.mode()
+        A = [g.bar(mode, allow_diag=True) for _ in range(r.randint(30, hi))]
+        if kind == "perm":
+            B = [list(p) for p in A]; r.shuffle(B)
+        elif kind == "near":
+            eta = r.choice([1e-3, 1e-6, 1e-9])
+            B = [sorted([p[0] * (1 + eta * r.uniform(-1, 1)), p[1] * (1 + eta * r.uniform(-1, 1))]) for p in A]
+            r.shuffle(B)
+            B = B[:r.randint(30, len(B))]
+        else:
+            B = [g.bar(mode, allow_diag=True) for _ in range(r.randint(30, hi))]
+        C = [g.bar(mode, allow_diag=True) for _ in range(r.randint(5, 40))]
+        (A, B, C), _ = resign(ctx, [A, B, C])
+        if kind == "far":
+            A, B, C = far(ctx, [A, B, C])
+        M = r.choice([1, 3, 10, 50, r.randint(1, 120)])
+        ctx.case({"op": "large", "n": [len(A), len(B)], "kind": kind, "M": M, "A0": A[:2]}, True)
+        ctx.count("large:" + kind)
+        todo = [lc for lc in laws_for(ctx, A, B, C, M) if lc["kind"] != "shared"] + [{"kind": "spec", "A": A, "B": B, "M": M}]
+        for lc in todo:
+            ok, info = eval_case(lc)
+            ctx.test("large_" + (lc["kind"] if lc["kind"] != "spec" else "definition"), ok)
+            if not ok:
+                fail(ctx, "sliced Wasserstein law `%s` fails on the real code for diagrams of %d and %d points" % (lc["kind"], len(A), len(B)),
+                     lc, info, law=True)
+                if n_found(ctx) > 5:
+                    return
+                break
+            note_sampling(ctx, lc, info)
 
 
 def replay(ctx, rep):
     c = rep["case"]
-    if "kind" not in c:
+    if "kind" not in c or ("correspondence" in c and c.get("kind") not in ("spec", "shared")):
         print("correspondence-only replay (no failing input was found): %s" % {k: c[k] for k in c if k in ("code", "model", "M")})
         if "A" in c:
             ok, info = eval_case({"kind": "spec", "A": c["A"], "B": c["B"], "M": c["M"]})
@@ -497,7 +691,8 @@ MANIFEST = {
             "proved too: the triangle inequality of the augmented construction, and for unit directions sw <= 2*W1 against every "
             "partial matching (Euclidean ground metric). The model is tied to the code on every run by executing it at Float with the "
             "code's own float64 direction vectors (1e-12 of the coordinate scale; observed 2e-16), against an independent definition "
-            "(exhaustive over bijections for <= 6 points), and all laws are evaluated on the real code as tests, including "
+            "(exhaustive over bijections for <= 6 points; every M from 1 to 300; diagrams up to 100 points, thorough 250), and all laws are "
+            "evaluated on the real code as tests, including "
             "translations and diagonal points at offsets up to 1e6 x the feature size (both signs) and integer / float32 arrays, with "
             "tolerances of float64 rounding of the coordinates involved (1e-14 * sum|coordinates|).",
     "note": "Trusted: Lean kernel + Mathlib, axioms propext/Classical.choice/Quot.sound; the correspondence harness; numpy cos/sin "
